@@ -4,7 +4,7 @@ Engine A: closure of the promotion automaton with the real transition functions
           (a) promote_with on EVERY DataType(kind, nullable) x symbol (x symbol) combination,
           (b) breadth-first product of (specification state, implementation output) over words,
               with a well-definedness (conformance) check every time a state is re-reached.
-Engine E: every word of length <= L over the 14-symbol type alphabet, two representatives per
+Engine E: every word of length <= L over the 16-symbol type alphabet, two representatives per
           symbol, through infer_dtype and Vector(values).schema().
 Part T  : 'typed by the same rule': arithmetic / join / aggregate / window / CSV result columns
           must carry expected_dtype(their own values).
@@ -14,13 +14,15 @@ from __future__ import annotations
 import io
 import itertools
 from datetime import date, datetime
+from decimal import Decimal
+from fractions import Fraction
 
 from mc import core
 from mc.core import Agg, V
 from mc.models import expected_dtype, join_kinds
 
 RULE = ("A: all (DataType, symbol[, symbol]) promotion combinations + BFS product automaton over words; "
-        "E: every word over 14 type symbols up to the length bound, 2 representatives; "
+        "E: every word over 16 type symbols (incl. Fraction and Decimal: numbers that are not on the ladder) up to the length bound, 2 representatives; "
         "non-trivial = word mixes >=2 distinct symbols (order/None-position can matter)")
 ASSUMPTIONS = [
     "type alphabet: None,bool,int,float,complex,str,bytes,date,datetime,list,dict,tuple and two unrelated user classes; "
@@ -44,7 +46,7 @@ class B:
 
 
 SYMS = ["None", "bool", "int", "float", "complex", "str", "bytes", "date", "datetime",
-        "list", "dict", "tuple", "A", "B"]
+        "list", "dict", "tuple", "A", "B", "Fraction", "Decimal"]
 REPS = {
     "None": (None, None),
     "bool": (True, False),
@@ -60,9 +62,13 @@ REPS = {
     "tuple": ((1,), ()),
     "A": (A(1), A(2)),
     "B": (B(1), B(2)),
+    # numbers.Number subclasses that are NOT on the bool<int<float<complex ladder: "any other mixture yields object"
+    "Fraction": (Fraction(1, 2), Fraction(3, 1)),
+    "Decimal": (Decimal("1.5"), Decimal(2)),
 }
 KIND = {"bool": bool, "int": int, "float": float, "complex": complex, "str": str, "bytes": bytes,
-        "date": date, "datetime": datetime, "list": list, "dict": dict, "tuple": tuple, "A": A, "B": B}
+        "date": date, "datetime": datetime, "list": list, "dict": dict, "tuple": tuple, "A": A, "B": B,
+        "Fraction": Fraction, "Decimal": Decimal}
 
 
 def kname(k):
@@ -364,8 +370,23 @@ def unit_typed(unit):
                     a = list(kinds[ka]); b = list(kinds[kb])
                     if none_pos is not None:
                         a[none_pos] = None
-                    for form in ("vv", "vs", "sv", "vl", "lv"):
-                        case = {"part": "arith", "op": opn, "left": a, "right": b, "form": form}
+                    for form, prov in [(f, "fresh") for f in ("vv", "vs", "sv", "vl", "lv")] + \
+                                      ([(f, pv) for f in ("vv", "vs", "sv", "vl") for pv in ("none-written-then-overwritten", "none-sliced-away", "row-of-a-table")]
+                                       if none_pos is None else []):
+                        case = {"part": "arith", "op": opn, "left": a, "right": b, "form": form, "left_operand_history": prov}
+
+                        def Vector(vals, _V=Vector, prov=prov, a=a):
+                            """the LEFT operand with a history: its dtype was nullable at some point, its values hold no None (any more)"""
+                            if vals is not a or prov == "fresh":
+                                return _V(vals)
+                            if prov == "none-written-then-overwritten":
+                                v = _V(list(vals)); v[0] = None; v[0] = vals[0]
+                                return v
+                            if prov == "none-sliced-away":
+                                return _V([None] + list(vals))[1:]
+                            # a row of an all-same-kind table in which ANOTHER row holds a None
+                            from serif import Table as _T
+                            return _T([_V([x, None]) for x in vals])[0]
                         # only values for which Python itself defines the scalar operation
                         try:
                             for x, y in zip(a, b if form in ("vv", "vl", "lv") else [b[0]] * len(a)):
@@ -481,7 +502,7 @@ def check(ctx):
     parts += core.pmap(unit_typed, tunits)
     for p in parts:
         agg.merge(p)
-    agg.notes["bound"] = f"automaton: all DataType states x 14 symbols x 14 symbols; words: every word of length <= {maxlen} x 2 representatives"
+    agg.notes["bound"] = f"automaton: all DataType states x {len(SYMS)} symbols x {len(SYMS)} symbols; words: every word of length <= {maxlen} x 2 representatives"
     agg.notes["exhaustive"] = True
     return agg
 
